@@ -19,7 +19,8 @@ ENGINE_KEYS = {
     "FFT": ["engine"], "FFT2D": ["engine"], "FFTND": ["engine"], "Shift": ["engine"],
     "Spread": ["engine", "onthefly"], "Radon2D": ["engine", "onthefly"], "Radon3D": ["engine", "onthefly"],
     "FourierRadon2D": ["engine"], "FourierRadon3D": ["engine"], "Kirchhoff": ["engine"],
-    "NonStationaryConvolve2D": ["engine"], "NonStationaryFilters2D": ["engine"],
+    "NonStationaryConvolve2D": ["engine"], "NonStationaryFilters2D": ["engine"], "NonStationaryConvolve3D": ["engine"],
+    "Sliding3D": ["savetaper"], "Patch3D": ["savetaper"],
     "Convolve1D": ["method"], "Convolve2D": ["method"], "ConvolveND": ["method"],
     "Sliding1D": ["savetaper"], "Sliding2D": ["savetaper"], "Patch2D": ["savetaper"],
     "Fredholm1": ["usematmul", "saveGt"], "MatrixMult": ["sparse"],
